@@ -44,6 +44,28 @@ theorem latest_resolves {α : Type} (latest : α) (cwd : List α) (o : P α) (su
     simp only at habs hc
     rw [habs, hc]
 
+/-- **latest_replaced** — whatever sat at `<o>/latest` before the run (nothing, a link of an
+earlier run whether it still resolves or dangles because that run was erased, a file, an empty
+directory), after `prepareDirs` it is the link of *this* run; only a non-empty directory makes
+`prepareDirs` fail. -/
+theorem latest_replaced {α : Type} (prev : Slot α) (target : P α) (h : prev ≠ .fullDir) :
+    replaceLatest prev target = some (.link target) := by
+  cases prev <;> simp_all [replaceLatest]
+
+theorem latest_fullDir_fails {α : Type} (target : P α) : replaceLatest (.fullDir : Slot α) target = none := rfl
+
+/-- the link of an erased earlier run (`--clear`) is replaced, and then resolves to this run -/
+example : replaceLatest (.link ⟨false, names [5]⟩) (prepareDirs 9 ⟨false, names [2]⟩ [7]).target
+      = some (.link ⟨false, names [7]⟩) ∧
+    resolveLink [0, 1] (prepareDirs 9 ⟨false, names [2]⟩ [7]).alias ⟨false, names [7]⟩
+      = absolutize [0, 1] (prepareDirs 9 ⟨false, names [2]⟩ [7]).runDir := by decide
+
+/-- witness for the `os.Stat` variant: a dangling link survives, so `latest` keeps naming the
+erased run -/
+theorem stat_variant_keeps_dangling_link :
+    replaceLatestStat (.link (⟨false, names [5]⟩ : P Nat)) false ⟨false, names [7]⟩
+      = some (.link ⟨false, names [5]⟩) := by decide
+
 /-- the pinned code: with `-o out` from `/tmp/w` the link `out/latest` holds the text `out/7`
 and therefore resolves to `/tmp/w/out/out/7`, not to the run directory `/tmp/w/out/7`
 (names: 0 = tmp, 1 = w, 2 = out, 9 = latest, 7 = the run id). -/
